@@ -27,6 +27,8 @@ type UDPHandler struct {
 	// ReadClose: one goroutine keeps reading while another closes the connection after EndAfter reads
 	// (what the proxy handler's two copy directions do): the blocked Read wakes up on the close.
 	ReadClose bool `json:"read_close,omitempty"`
+	// LingerMs: after its last read the handler takes this long to wind down before it returns
+	LingerMs int `json:"linger_ms,omitempty"`
 }
 
 func (*UDPHandler) CaddyModule() caddy.ModuleInfo {
@@ -99,6 +101,10 @@ func (h *UDPHandler) Handle(cx *layer4.Connection, _ layer4.Handler) error {
 			rec.Add(Event{Kind: "udp-end", Who: h.Name, N: int(assoc), S: "end_after"})
 			break
 		}
+	}
+	if h.LingerMs > 0 {
+		time.Sleep(time.Duration(h.LingerMs) * time.Millisecond)
+		rec.Add(Event{Kind: "udp-return", Who: h.Name, N: int(assoc)})
 	}
 	if h.CloseSelf {
 		_ = cx.Close()
